@@ -298,7 +298,15 @@ func zzGen(mask int, depth int, allowNullable bool) (*schemas.Type, *zzSpec) {
 			s.format = "typed"
 		}
 		s.enumF = []float64{1, 2}
-		t.Enum = []interface{}{1.0, 2.0}
+		if zzvrt.Param("ENUMBIG", 0) == 1 && zzvrt.Bool() {
+			// members near the edge of what a JSON number (float64) holds exactly: odd integers
+			// between 2^52 and 2^53, positive and negative, and zero
+			s.enumF = []float64{9007199254740991, -4503599627370497, 0}
+		}
+		t.Enum = nil
+		for _, v := range s.enumF {
+			t.Enum = append(t.Enum, v)
+		}
 	case zzKEnumMixed:
 		s.kind = "enum-mixed"
 		s.enumS = []string{"a"}
